@@ -363,13 +363,14 @@ class _Gen:
                 lines.append(self.choice(['including', 'including a.xly b.xly', 'including  ']))
             elif kind == 'incomplete':
                 pool = ['file', 'dir', 'cd', 'def string X%d =' % self.tag, 'file f%d.txt =' % self.tag,
-                        'env X%d =' % self.tag, 'timeout =']
+                        'env X%d =' % self.tag, 'timeout =', 'copy', 'run', 'env', 'timeout', 'dir d%d =' % self.tag]
                 if phase == 'assert':
-                    pool += ['exists', 'exit-code', 'stdout', 'contents']
+                    pool += ['exists', 'exit-code', 'stdout', 'contents', 'stderr', 'dir-contents',
+                             'contents f%d.txt :' % self.tag]
                 if phase == 'setup':
                     pool += ['stdin =']
                 if phase == 'conf':
-                    pool = ['status =', 'actor =', 'home =', 'status']
+                    pool = ['status =', 'actor =', 'home =', 'status', 'actor', 'act-home =', 'home']
                 lines.append(self.choice(pool))
                 follower = True
                 # (a comment line after an incomplete instruction has two documented readings: rare)
@@ -495,7 +496,7 @@ class _Gen:
         kinds = [(1, 'hdr_unknown'), (1, 'hdr_malformed')]
         if phase != 'act':
             kinds += [(8, 'instr'), (5, 'instr_multi'), (2, 'syntax_unknown'), (2, 'include_missing'),
-                      (2, 'include_cycle'), (1, 'syntax_heredoc'), (1, 'incomplete')]
+                      (3, 'include_cycle'), (1, 'include_directory'), (2, 'syntax_heredoc'), (2, 'incomplete')]
         elif self.draw(_int_below(4)) != 0:
             return None  # wait for a phase with instructions
         want = self.plant.get('kind')
@@ -512,8 +513,17 @@ class _Gen:
         elif kind == 'include_missing':
             lines, ident = ['including missing-%s.xly' % T], 'FILE_ACCESS_ERROR'
         elif kind == 'include_cycle':
-            target = self.choice(stack)
+            # (an ancestor rather than the file itself, where there is one: indirect cycles)
+            target = self.choice(stack[:-1]) if len(stack) > 1 and self.draw(_int_below(3)) else self.choice(stack)
+            if self.draw(_int_below(3)) == 0:
+                # the file on the inclusion stack under another name (a symbolic link in its directory)
+                link = posixpath.join(posixpath.dirname(target), 'link%d.xly' % len(self.symlinks))
+                self.symlinks[link] = target
+                target = link
             lines, ident = ['including ' + self.rel_ref(path, target)], 'FILE_ACCESS_ERROR'
+        elif kind == 'include_directory':
+            self.dirs.add('adir')
+            lines, ident = ['including ' + self.rel_ref(path, 'adir')], 'FILE_ACCESS_ERROR'
         elif kind == 'syntax_unknown':
             lines, ident, desc_ok = ['no-such-instruction %s' % T], 'SYNTAX_ERROR', True
         elif kind == 'syntax_heredoc':
@@ -522,9 +532,12 @@ class _Gen:
             else:
                 lines, ident, desc_ok = ['file %s.txt = <<NOEND' % T, 'text', '[assert]'], 'SYNTAX_ERROR', True
         elif kind == 'incomplete':
-            lines, ident = [self.choice(['dir', 'file', 'def string X ='] if phase != 'conf' else ['status =']),
-                            self.header(self.choice(PHASES))], 'SYNTAX_ERROR'
-            kind = 'incomplete'
+            pool = ['status =']
+            if phase != 'conf':
+                pool = ['dir', 'file', 'def string X =', 'dir', 'file', 'def string X =', 'cd', 'copy', 'run',
+                        'timeout =', 'env X =', 'file x-%s.txt =' % T] + (['exists'] if phase == 'assert' else [])
+            hdr = self.header(self.choice(PHASES)) if self.draw(_int_below(5)) else self.choice(_UNKNOWN_HEADERS)
+            lines, ident = [self.choice(pool)] + self.some(_BLANKS, 0, 2) + [hdr], 'SYNTAX_ERROR'
         elif phase == 'conf':
             lines, ident, desc_ok = ['status = %s' % T], 'SYNTAX_ERROR', True
         elif phase == 'assert':
@@ -671,6 +684,10 @@ def _exec_case(draw, root_items, inc_items, max_files, plant, swaps, max_depth=3
     case = {'files': dict(sorted(g.files.items())), 'code': g.code, 'plant': g.planted}
     if root != ROOT:
         case['root'] = root
+    if g.dirs:
+        case['dirs'] = sorted(g.dirs)
+    if g.symlinks:
+        case['symlinks'] = dict(sorted(g.symlinks.items()))
     if draw(_int_below(8)) == 0:
         case['root_abs'] = True  # the test case file is given by its absolute path
     if swaps:
